@@ -403,7 +403,9 @@ def translate_c20(sid, case, real):
         elif k == 'end':
             res, released = rec[3], rec[4]
             if state.get(c) == 'waiting':
-                if res == 'semtimeout':
+                if res in ('semtimeout', 'timeout'):
+                    # a TimeoutError for a caller that never got a slot and never entered the function is the acquisition
+                    # timeout, whatever its message says
                     lines.append(f'T sem {key} acqTimeout {c}')
                     if case['lax']:
                         lines.append(f'T semNote laxCallerGotTimeoutError {c}')
@@ -547,7 +549,7 @@ def decide(prop, tier, seed, gate, my_thms, known, t0, replay):
                     waiting.discard(rec[2])
                 elif rec[0] in ('bodyStart', 'end') and rec[2] in waiting:
                     waiting.discard(rec[2])
-                    gave_up = rec[0] == 'bodyStart' or rec[3] == 'semtimeout'
+                    gave_up = rec[0] == 'bodyStart' or rec[3] in ('semtimeout', 'timeout')
                     waited = rec[-1] - t_call[rec[2]]
                     if gave_up and waited < t_acq - 1e-9:
                         own.setdefault(i, []).append(f'semaphore {rec[1]}: caller {rec[2]} ' + ('ran without a slot' if rec[0] == 'bodyStart' else 'was refused with TimeoutError') +
